@@ -81,3 +81,41 @@ prop("C11",
      "Bounded threads/ops; mutex/condvar/clock leaves modelled.",
      "stateless model checking of the implementation: preemption-bounded DFS over a controlled scheduler",
      "DESIGN.md 4/C11")
+
+
+prop("C03",
+     [dict(name="C03", src="C03.cpp", deadline=dict(quick=90, thorough=900))],
+     SCHED_RULE + " Programs: 1-2 (3 thorough) writers x 1-2 modify calls, 1-2 readers x 1-3 acquisitions through "
+     "each of the four shared-acquisition forms, with and without overlapping handles, commuting and non-commuting "
+     "functors.",
+     "Real lr_guarded<Pair> (two-word payload with scheduling points inside functor, copy and reads). Oracles: "
+     "ghost access windows per copy (functor vs reader), torn pair, value stable while a handle is held, freshness "
+     "(>= modifies returned before the acquisition began, <= modifies invoked when it returned), per-reader "
+     "monotonicity, final value = number of modifies / one of the sequential compositions, both copies agree, "
+     "deadlock/livelock detector, vector-clock race detector on both copies. All atomics are seq_cst, so SC "
+     "exploration plus race freedom covers the memory-model clause (DRF-SC).",
+     A_COMMON + [A_MM],
+     "Exhaustive exploration of all interleavings (preemption-bounded, iterated) of the atomic steps of modify "
+     "with lock_shared and handle release for every small writer/reader program over the real lr_guarded.",
+     "Bounded writers/readers/ops; mutex and yield modelled; spin loops bounded by the yield rule.",
+     "stateless model checking of the implementation: preemption-bounded DFS over a controlled scheduler",
+     "DESIGN.md 4/C03")
+
+
+prop("C04",
+     [dict(name="C04", src="C04.cpp", deadline=dict(quick=90, thorough=900))],
+     SCHED_RULE + " Programs: 1-2 (3 thorough) writers with every sequence of <=2 operations over {commit, cancel, "
+     "move-construct + commit}, 0-2 readers taking 1-2 snapshots through each shared-acquisition form, kept across "
+     "later commits or dropped.",
+     "Real cow_guarded<Pair>; shared_ptr reference counts are atomics and therefore scheduling points. Oracles: "
+     "snapshot torn-pair / unchanged at every re-read while held (payload destructor poisons, arena quarantines "
+     "freed payloads: any touch is a use-after-free report), write handles start from a value between commits "
+     "completed before lock() and commits begun at its return, writer sections (lock..release) never overlap, "
+     "snapshot freshness and per-reader monotonicity, final value = number of commits (cancel excluded), writer "
+     "lock free afterwards, every payload freed exactly once (arena accounting), race detector.",
+     A_COMMON + [A_MM],
+     "Exhaustive exploration of all interleavings (preemption-bounded, iterated) of writers (commit/cancel/move) "
+     "and snapshot readers over the real cow_guarded, including the reference-count atomics.",
+     "Bounded writers/readers/ops; mutex and yield modelled.",
+     "stateless model checking of the implementation: preemption-bounded DFS over a controlled scheduler",
+     "DESIGN.md 4/C04")
